@@ -16,19 +16,6 @@ namespace Zed.Props.C04
 open Zed.Bf
 open Zed.Opt (Expr)
 
-/-- every value of the frame has a type in which records are nested only in records. -/
-def FrameRecOnly (ctx : Ctx) (frame : List (Nat × Val)) : Prop :=
-  ∀ m ∈ frame, ∀ t, ctx m.1 = some t → recOnly t = true
-
-/-- every search of the expression looks at `this` or at a field path (not at a computed
-    value). -/
-def searchOverPaths : Expr → Bool
-  | .bin _ l r => searchOverPaths l && searchOverPaths r
-  | .un _ a => searchOverPaths a
-  | .search _ _ (.this _) => true
-  | .search _ _ _ => false
-  | _ => true
-
 /-- some value of the frame makes the filter true. -/
 def Accepts (lits : Lits) (atoms : Atoms) (ctx : Ctx) (e : Expr) (frame : List (Nat × Val)) : Prop :=
   ∃ m ∈ frame, ∃ t, ctx m.1 = some t ∧ evalFilter lits atoms e t m.2 = .tt
@@ -145,7 +132,7 @@ private theorem string_eval_of_infix (ctx : Ctx) (frame : List (Nat × Val)) (pa
 
 /-- a keyword / literal search over `this` or a field path. -/
 theorem search_sound (lits : Lits) (atoms : Atoms) (ctx : Ctx) (frame : List (Nat × Val))
-    (hfr : FrameRecOnly ctx frame) (text value : String) (p : Zed.Opt.Path) (bf : BufFilter)
+    (text value : String) (p : Zed.Opt.Path) (bf : BufFilter)
     (hc : compile lits (.search text value (.this p)) = some bf)
     (m : Nat × Val) (hm : m ∈ frame) (t : Ty) (ht : ctx m.1 = some t)
     (he : evalFilter lits atoms (.search text value (.this p)) t m.2 = .tt) :
@@ -177,10 +164,10 @@ theorem search_sound (lits : Lits) (atoms : Atoms) (ctx : Ctx) (frame : List (Na
               have hleft := forStringCase_some hl'
               subst hleft
               have hev := ofBool_eq_tt he
-              obtain ⟨hro, hst⟩ := getPath_guard (primBytes lit.val) (pathBytes p) t m.2 ft fv hg (hfr m hm t ht)
               simp only [BufFilter.eval, Bool.or_eq_true]
-              rcases searchString_sound (primBytes lit.val) ft fv hro hev with h1 | h1
-              · exact Or.inr (fieldNameFind_of_mem ctx _ frame m t hm ht (hst h1))
+              rcases searchString_sound (primBytes lit.val) ft fv hev with h1 | h1
+              · exact Or.inr (fieldNameFind_of_mem ctx _ frame m t hm ht
+                  (getPath_match _ (pathBytes p) t m.2 ft fv hg h1))
               · left
                 have := stringCase_eval_of_infix ctx frame (primBytes lit.val) m hm
                   (findBy_infix foldEq _ (getPath_infix _ t m.2 ft fv hg) h1)
@@ -225,12 +212,10 @@ theorem search_sound (lits : Lits) (atoms : Atoms) (ctx : Ctx) (frame : List (Na
       · simp at hc
 
 /-- The over-approximation, by induction over the filter expression. -/
-theorem compile_sound (lits : Lits) (atoms : Atoms) (ctx : Ctx) (frame : List (Nat × Val))
-    (hfr : FrameRecOnly ctx frame) :
-    ∀ (e : Expr), searchOverPaths e = true → ∀ bf, compile lits e = some bf →
+theorem compile_sound (lits : Lits) (atoms : Atoms) (ctx : Ctx) (frame : List (Nat × Val)) :
+    ∀ (e : Expr) (bf : BufFilter), compile lits e = some bf →
       Accepts lits atoms ctx e frame → bf.eval ctx frame (encFrame frame) = true
-  | .bin op l r, hs, bf, hc, ⟨m, hm, t, ht, he⟩ => by
-    simp only [searchOverPaths, Bool.and_eq_true] at hs
+  | .bin op l r, bf, hc, ⟨m, hm, t, ht, he⟩ => by
     simp only [compile] at hc
     split at hc
     · rename_i lit hf
@@ -245,14 +230,14 @@ theorem compile_sound (lits : Lits) (atoms : Atoms) (ctx : Ctx) (frame : List (N
         rw [if_pos (by decide)] at he
         obtain ⟨hl, hr⟩ := Tri.and_eq_tt he
         split at hc
-        · exact compile_sound lits atoms ctx frame hfr r hs.2 bf hc ⟨m, hm, t, ht, hr⟩
-        · exact compile_sound lits atoms ctx frame hfr l hs.1 bf hc ⟨m, hm, t, ht, hl⟩
+        · exact compile_sound lits atoms ctx frame r bf hc ⟨m, hm, t, ht, hr⟩
+        · exact compile_sound lits atoms ctx frame l bf hc ⟨m, hm, t, ht, hl⟩
         · rename_i a b ha hb
           simp only [Option.some.injEq] at hc
           subst hc
           simp only [BufFilter.eval, Bool.and_eq_true]
-          exact ⟨compile_sound lits atoms ctx frame hfr l hs.1 a ha ⟨m, hm, t, ht, hl⟩,
-                 compile_sound lits atoms ctx frame hfr r hs.2 b hb ⟨m, hm, t, ht, hr⟩⟩
+          exact ⟨compile_sound lits atoms ctx frame l a ha ⟨m, hm, t, ht, hl⟩,
+                 compile_sound lits atoms ctx frame r b hb ⟨m, hm, t, ht, hr⟩⟩
       · split at hc
         · rename_i hop1 hop
           have hop' : op = "or" := by simpa using hop
@@ -265,38 +250,35 @@ theorem compile_sound (lits : Lits) (atoms : Atoms) (ctx : Ctx) (frame : List (N
             subst hc
             simp only [BufFilter.eval, Bool.or_eq_true]
             rcases Tri.or_eq_tt he with h | h
-            · exact Or.inl (compile_sound lits atoms ctx frame hfr l hs.1 a ha ⟨m, hm, t, ht, h⟩)
-            · exact Or.inr (compile_sound lits atoms ctx frame hfr r hs.2 b hb ⟨m, hm, t, ht, h⟩)
+            · exact Or.inl (compile_sound lits atoms ctx frame l a ha ⟨m, hm, t, ht, h⟩)
+            · exact Or.inr (compile_sound lits atoms ctx frame r b hb ⟨m, hm, t, ht, h⟩)
           · simp at hc
         · simp at hc
-  | .search text value e', hs, bf, hc, ⟨m, hm, t, ht, he⟩ => by
+  | .search text value e', bf, hc, ⟨m, hm, t, ht, he⟩ => by
     cases e' with
-    | this p => exact search_sound lits atoms ctx frame hfr text value p bf hc m hm t ht he
-    | _ => simp [searchOverPaths] at hs
-  | .this _, _, _, hc, _ | .lit _, _, _, hc, _ | .un _ _, _, _, hc, _ | .call .., _, _, hc, _
-  | .rmatch .., _, _, hc, _ | .rsearch .., _, _, hc, _ | .dot .., _, _, hc, _ | .record _, _, _, hc, _
-  | .map _, _, _, hc, _ | .agg .., _, _, hc, _ | .none, _, _, hc, _ | .x .., _, _, hc, _ => by
+    | this p => exact search_sound lits atoms ctx frame text value p bf hc m hm t ht he
+    | _ => simp [compile] at hc
+  | .this _, _, hc, _ | .lit _, _, hc, _ | .un _ _, _, hc, _ | .call .., _, hc, _
+  | .rmatch .., _, hc, _ | .rsearch .., _, hc, _ | .dot .., _, hc, _ | .record _, _, hc, _
+  | .map _, _, hc, _ | .agg .., _, hc, _ | .none, _, hc, _ | .x .., _, hc, _ => by
     simp [compile] at hc
 
-/-- Full statement (the doc comment of `CompileBufferFilter`): for every filter expression `e`,
-    every frame and every type context,
+/-- The statement of the doc comment of `CompileBufferFilter`, at full strength: for every filter
+    expression `e`, every literal table, every interpretation of the predicates the model does not
+    look into, every type context and every frame,
       `(∃ v ∈ frame, evalFilter e v = true) → bufferFilter (compile e) frame = true`.
-    It is FALSE of the current code in two ways, both reproduced on the real code by the harness:
-    `not_bufferfilter_overapprox` (a field *name* matched below an array: `FieldNameFinder` only
-    looks through directly nested records, the evaluator's `Walk` also through arrays, sets, maps,
-    unions and errors) and `not_bufferfilter_overapprox_computed` (the operand of a search is
-    ignored by the compiler).  Proved under the two decidable guards `FrameRecOnly` (records are
-    nested only in records) and `searchOverPaths` (searches look at `this` or a field path), for
-    every expression of the push-down grammar, every literal table, every interpretation of the
-    unmodelled predicates, every frame and context. -/
-theorem bufferfilter_overapprox_partial (lits : Lits) (atoms : Atoms) (ctx : Ctx) (e : Expr)
-    (frame : List (Nat × Val)) (hfr : FrameRecOnly ctx frame) (hs : searchOverPaths e = true)
-    (h : Accepts lits atoms ctx e frame) : bufferFilter ctx (compile lits e) frame = true := by
+    (Before the fixes 2b0afda63 — FieldNameFinder descends into arrays, sets, maps, unions and
+    errors — and 51d3101c2 — no buffer filter for a search over a computed operand — the statement
+    was false in exactly these two ways; the witnesses are kept below as regression examples and
+    in the harness.) -/
+theorem bufferfilter_overapprox (lits : Lits) (atoms : Atoms) (ctx : Ctx) (e : Expr)
+    (frame : List (Nat × Val)) (h : Accepts lits atoms ctx e frame) :
+    bufferFilter ctx (compile lits e) frame = true := by
   unfold bufferFilter
   split
   · rfl
   · rename_i f hc
-    exact compile_sound lits atoms ctx frame hfr e hs f hc h
+    exact compile_sound lits atoms ctx frame e f hc h
 
 /-- what the scanner delivers for one frame: nothing when the buffer filter says false, else the
     values the filter accepts. -/
@@ -308,19 +290,17 @@ def accepts1 (lits : Lits) (atoms : Atoms) (ctx : Ctx) (e : Expr) (m : Nat × Va
 def scanFrame (lits : Lits) (atoms : Atoms) (ctx : Ctx) (e : Expr) (fr : List (Nat × Val)) : List (Nat × Val) :=
   if bufferFilter ctx (compile lits e) fr then fr.filter (accepts1 lits atoms ctx e) else []
 
-/-- Full statement: scanning framed values with the pushed-down filter delivers exactly the
-    accepted values, however the values are cut into frames (frame threshold, end-of-stream
-    positions, compression do not matter: only the partition into frames does).  Proved under the
-    same two guards; false without them for the same two witnesses. -/
-theorem pushdown_equiv_partial (lits : Lits) (atoms : Atoms) (ctx : Ctx) (e : Expr)
-    (hs : searchOverPaths e = true) (frames : List (List (Nat × Val)))
-    (hfr : ∀ fr ∈ frames, FrameRecOnly ctx fr) :
+/-- Scanning framed values with the pushed-down filter delivers exactly the accepted values,
+    however the values are cut into frames (frame threshold, end-of-stream positions, compression
+    do not matter: only the partition into frames does). -/
+theorem pushdown_equiv (lits : Lits) (atoms : Atoms) (ctx : Ctx) (e : Expr)
+    (frames : List (List (Nat × Val))) :
     frames.flatMap (scanFrame lits atoms ctx e) = frames.flatten.filter (accepts1 lits atoms ctx e) := by
   induction frames with
   | nil => rfl
   | cons fr rest ih =>
     simp only [List.flatMap_cons, List.flatten_cons, List.filter_append]
-    rw [ih (fun f hf => hfr f (List.mem_cons_of_mem _ hf))]
+    rw [ih]
     congr 1
     unfold scanFrame
     split
@@ -330,14 +310,14 @@ theorem pushdown_equiv_partial (lits : Lits) (atoms : Atoms) (ctx : Ctx) (e : Ex
       rw [List.filter_eq_nil_iff]
       intro m hm hacc
       apply hb
-      apply bufferfilter_overapprox_partial lits atoms ctx e fr (hfr fr (List.mem_cons_self)) hs
+      apply bufferfilter_overapprox lits atoms ctx e fr
       unfold accepts1 at hacc
       split at hacc
       · rename_i t ht
         exact ⟨m, hm, t, ht, by simpa using hacc⟩
       · simp at hacc
 
-/-! ## the full statement is false: two witnesses, both replayed on the real code -/
+/-! ## the two former counterexamples (fixed by 2b0afda63 and 51d3101c2), as regression examples -/
 
 def fooBytes : Bytes := [102, 111, 111]      -- "foo"
 
@@ -350,33 +330,19 @@ def witCtx : Ctx := fun id => if id == 30 then some witTy else none
 def witFrame : List (Nat × Val) := [(30, witVal)]
 def witSearch : Expr := .search "foo" "\"foo\"" (.this [])
 
-/-- `search foo` over `{a:[{foo:1}]}`: the evaluator matches (the field name `foo` of the record
-    inside the array), the buffer filter says the frame cannot match. -/
-theorem not_bufferfilter_overapprox :
+/-- `search foo` over `{a:[{foo:1}]}`: the evaluator matches through the field name inside the
+    array, and the buffer filter now lets the frame through. -/
+theorem fieldname_under_array_passes :
     Accepts witLits (fun _ _ _ => .ff) witCtx witSearch witFrame ∧
-    bufferFilter witCtx (compile witLits witSearch) witFrame = false := by
+    bufferFilter witCtx (compile witLits witSearch) witFrame = true := by
   refine ⟨⟨(30, witVal), by simp [witFrame], witTy, by simp [witCtx], by decide⟩, by decide⟩
 
-/-- the guard that excludes it is violated by that witness, and satisfiable. -/
-example : recOnly witTy = false := by decide
-example : FrameRecOnly witCtx [] := by intro m hm; simp at hm
-example : recOnly (.record (.cons [97] (.record (.cons fooBytes (.prim 9) .nil)) .nil)) = true := by decide
+/-- non-vacuity of `bufferfilter_overapprox`: its hypothesis holds for that witness. -/
+example : Accepts witLits (fun _ _ _ => .ff) witCtx witSearch witFrame := fieldname_under_array_passes.1
 
-def wit2Lits : Lits := fun s => if s == "\"ab\"" then some ⟨.prim idString, .prim [97, 98]⟩ else none
-def wit2Expr : Expr := .search "ab" "\"ab\"" (.x "BinaryExpr" "s+t")
-def wit2Ty : Ty := .record (.cons [115] (.prim idString) (.cons [116] (.prim idString) .nil))
-def wit2Val : Val := .cont (.cons (.prim [97]) (.cons (.prim [98]) .nil))
-def wit2Ctx : Ctx := fun id => if id == 30 then some wit2Ty else none
-
-/-- `grep("ab", s+t)` over `{s:"a",t:"b"}`: the computed operand "ab" matches (here: the
-    unmodelled operand is an atom evaluating to true), the buffer filter looks for "ab" in the raw
-    frame and does not find it. -/
-theorem not_bufferfilter_overapprox_computed :
-    Accepts wit2Lits (fun _ _ _ => .tt) wit2Ctx wit2Expr [(30, wit2Val)] ∧
-    bufferFilter wit2Ctx (compile wit2Lits wit2Expr) [(30, wit2Val)] = false := by
-  refine ⟨⟨(30, wit2Val), by simp, wit2Ty, by simp [wit2Ctx], by decide⟩, by decide⟩
-
-example : searchOverPaths wit2Expr = false := by decide
-example : searchOverPaths witSearch = true := by decide
+/-- `grep("ab", s+t)`: a search over a computed operand has no buffer filter. -/
+theorem computed_search_has_no_bufferfilter (lits : Lits) (text value kind json : String) :
+    compile lits (.search text value (.x kind json)) = none := by
+  simp [compile]
 
 end Zed.Props.C04
